@@ -91,7 +91,7 @@ RXV_SUBCOMMAND(c11) {
 		if (idx++ % args.nshards != args.shard) continue;
 		if (!thorough && len > 1100 && (len / 128) % 8 != 0) continue;
 		std::vector<uint8_t> msg(len); rng.fill(msg.data(), len);
-		const int reps = thorough ? 60 : 12;
+		const int reps = thorough ? 300 : 12;
 		for (int r = 0; r < reps; ++r) {
 			size_t outlen = r == 0 ? 64 : (r == 1 ? 32 : 1 + rng.below(64));
 			std::vector<uint8_t> key(rng.chance(1, 2) ? 0 : 1 + rng.below(64)); rng.fill(key.data(), key.size());
@@ -103,7 +103,7 @@ RXV_SUBCOMMAND(c11) {
 		size_t k = 0;
 		for (size_t outlen = 1; outlen <= 64; ++outlen) for (size_t keylen = 0; keylen <= 64; ++keylen) {
 			if (k++ % args.nshards != args.shard) continue;
-			for (int r = 0; r < (thorough ? 40 : 4); ++r) {
+			for (int r = 0; r < (thorough ? 200 : 4); ++r) {
 				std::vector<uint8_t> msg(rng.below(300)), key(keylen); rng.fill(msg.data(), msg.size()); rng.fill(key.data(), keylen);
 				compareOne(msg, outlen, key, (int)rng.below(6));
 			}
